@@ -22,14 +22,14 @@ def check(run):
                 "outcomes 404/409/429/500; each replayed on the real terminator and eviction queue; non-trivial = the real trace "
                 "contains an eviction or a direct pod delete issued by Karpenter")
     thorough = run.tier == "thorough"
-    models = ["Drain_MC.cfg", "Drain_MCdl.cfg"] + (["Drain_MCbig.cfg"] if thorough else [])
+    models = ["Drain_MC.cfg", "Drain_MCdl.cfg"] + (["Drain_MCbig.cfg", "Drain_Live.cfg"] if thorough else [])
     tc.parallel_tlc(run, "Drain", models, WEAK, coverage=thorough, workers=6 if thorough else 4)
     behs = tc.generate(run, NSIM[run.tier][0], NSIM[run.tier][1], with_term_sys=thorough, with_drain_sys=True)
     files = tc.record(run, behs)
     info, total = tc.scan(files, len(behs))
     for b, k in zip(behs, info):
         run.note_case(json.dumps([b["cfg"], b["steps"]], sort_keys=True), k["evict"] + k["delete"] > 0)
-    run.validate("Termination_Trace", "Termination_Trace.cfg", files, par=min(vlib.NCPU, 8))
+    tc.validate(run, files)
     run.extra_cov["guarded_event_counts"] = dict(total)
     run.samples = [{"tag": b["tag"], "cfg": b["cfg"], "steps": b["steps"]} for b in (behs[0], behs[len(behs) // 2], behs[-1])]
     run.assumptions += ["the harness implements the eviction sub-resource with PodDisruptionBudget semantics (429 while disruptionsAllowed = 0, "
